@@ -84,6 +84,21 @@ def followup(stage, lines, model, checked, release, tier, rng):
                         emit(w, "hint-repeat")
                         done = True
                     start = cnt[i]
+                # a polynomial whose first hint is at position 0: repeat that 0 (shift the rest up, bump the counters): decodes to the
+                # same hint vector, so the challenge hash still matches; the encoding is not canonical
+                if tot < p.omega:
+                    start = 0
+                    for i in range(p.k):
+                        if cnt[i] > start and sig[hoff + start] == 0:
+                            w = bytearray(sig)
+                            area = list(sig[hoff:hoff + tot])
+                            area.insert(start, 0)
+                            w[hoff:hoff + tot + 1] = bytes(area)
+                            for j in range(i, p.k):
+                                w[hoff + p.omega + j] = cnt[j] + 1
+                            emit(w, "hint-repeat-zero")
+                            break
+                        start = cnt[i]
                 if tot < p.omega:
                     w = bytearray(sig); w[hoff + tot] = 1; emit(w, "hint-padding")
                     w = bytearray(sig); w[hoff + p.omega - 1] = 255; emit(w, "hint-padding-last")
